@@ -37,6 +37,8 @@ ASSUMPTIONS = [
     "samples are float64 arrays of shape (n, d), labels int64 >= -1 (what the constructor accepts)",
     "scale_range ranges satisfy lo < hi and are passed as tuples (scikit-learn's MinMaxScaler requires both)",
     "a constant dimension is mapped onto the lower range end by scale_range (MinMaxScaler convention)",
+    "scale_range is not applied to a set in which some dimension has a non-zero extent below 1e-6*max(1,|coordinates|), in "
+    "the model or in the object (values that differ only by rounding, e.g. 1.2 vs (1.2+1)-1 joined by concatenate)",
     "scaling factors are non-zero (negative allowed, as in the repository's own test); vector factors/shifts have length d; "
     "a factor/shift that would push |coordinates| above 1e4 or the accumulated |factor| outside [1e-3, 1e3] is not applied",
     "remove_samples index lists have no duplicates; ValueError and IndexError both count as rejection (DESIGN 3.7)",
@@ -485,7 +487,14 @@ class Machine:
             return self._empty_op(e, "scale_range", call)
         mn, mx = m.cur.min(axis=0), m.cur.max(axis=0)
         ext = mx - mn
-        if np.any((ext > 0) & (ext < 1e-6 * max(1.0, m.mag))):
+        # Rows that are equal in the model can differ by an ulp in the object (e.g. 1.2 and (1.2 + 1) - 1 after a revert,
+        # brought together by concatenate): MinMaxScaler would stretch that rounding noise over the whole range. Such a
+        # set is outside what "up to rounding" can decide, so the operation is not applied (decision read from the object
+        # BEFORE the call; the model's own extents are tested the same way).
+        Xb, _ = obs_rows(np, e.obj)
+        oext = (Xb.max(axis=0) - Xb.min(axis=0)) if Xb.shape == m.cur.shape else ext
+        small = 1e-6 * max(1.0, m.mag)
+        if np.any((ext > 0) & (ext < small)) or np.any((oext > 0) & (oext < small)):
             self.out.cls("skipped-ill-conditioned-scale_range")
             return
         s = np.where(ext > 0, (hi - lo) / np.where(ext > 0, ext, 1.0), (hi - lo))
